@@ -247,6 +247,8 @@ def task_oracle(funcs, latencies=None):
             return ("err", b[1][n - 1], "boom") if n <= len(b[1]) else ("ok", {"after": n})
         if b[0] == "silent":
             return ("silent",)
+        if b[0] == "slow":       # echo after b[1] virtual seconds
+            return ("ok", payload, {"latency": b[1]})
         if b[0] == "seq":        # explicit outcome sequence, last one repeats
             o = b[1][min(n, len(b[1])) - 1]
             return tuple(o)
